@@ -65,6 +65,7 @@ type frame struct {
 	panic            interface{}
 	phitemps         []value // temporaries for parallel phi assignment
 	callpos          token.Pos
+	initSkip         map[ssa.Value]bool // package initializer only: values of skipped (foreign test file) initialisers
 }
 
 // targetPanic: the target program panicked (explicitly or by a run-time error).
@@ -514,6 +515,7 @@ func callSSA(i *interpreter, caller *frame, callpos token.Pos, fn *ssa.Function,
 		fr.env[fv] = env[i]
 	}
 	if isInit {
+		fr.initSkip = map[ssa.Value]bool{}
 		// force the guard so that the body executes exactly once per (re)initialisation
 		if g, ok := fn.Pkg.Members["init$guard"].(*ssa.Global); ok {
 			*i.globalAddr(g) = false
@@ -594,6 +596,21 @@ func runFrame(fr *frame) {
 					fmt.Printf("%s  %s\n", strings.Repeat(" ", fr.i.depth), instr)
 				}
 			}
+			if fr.initSkip != nil {
+				if fr.skipInInit(instr, false) {
+					continue
+				}
+				if cont, ok := fr.tryInitInstr(instr); ok {
+					if cont == kReturn {
+						return
+					}
+					if cont == kJump {
+						break
+					}
+					continue
+				}
+				continue
+			}
 			if visitInstr(fr, instr) == kReturn {
 				return
 			}
@@ -665,4 +682,80 @@ func doRecover(caller *frame) value {
 		}
 	}
 	return iface{}
+}
+
+// skipInInit: while running the initializer of a helm package's test variant,
+// initialisers and init functions that come from the package's own _test.go
+// files (not the harness overlay) are skipped — they set up helm's unit-test
+// fixtures (REST codecs, fake servers) and are never part of a claim. A skipped
+// value poisons everything computed from it.
+func (fr *frame) skipInInit(instr ssa.Instruction, force bool) bool {
+	foreign := force
+	if pos := instr.Pos(); pos.IsValid() {
+		name := fr.i.prog.Fset.Position(pos).Filename
+		if strings.HasSuffix(name, "_test.go") && !strings.Contains(name, "zz_verif_") {
+			foreign = true
+		}
+	}
+	if c, ok := instr.(*ssa.Call); ok && !foreign {
+		if f, ok := c.Call.Value.(*ssa.Function); ok && strings.HasPrefix(f.Name(), "init#") {
+			name := fr.i.prog.Fset.Position(f.Pos()).Filename
+			if strings.HasSuffix(name, "_test.go") && !strings.Contains(name, "zz_verif_") {
+				foreign = true
+			}
+		}
+	}
+	if !foreign {
+		var buf [8]*ssa.Value
+		for _, op := range instr.Operands(buf[:0]) {
+			if *op != nil && fr.initSkip[*op] {
+				foreign = true
+				break
+			}
+		}
+	}
+	if !foreign {
+		return false
+	}
+	switch instr.(type) {
+	case *ssa.If, *ssa.Jump, *ssa.Return:
+		return false // control flow is never skipped
+	}
+	if v, ok := instr.(ssa.Value); ok {
+		fr.initSkip[v] = true
+	}
+	if st, ok := instr.(*ssa.Store); ok {
+		if g, ok := st.Addr.(*ssa.Global); ok {
+			*fr.i.globalAddr(g) = poisonVal{g.String()}
+			fr.i.env.used.Store("init[poisoned]: "+g.String()+" (initialiser out of the engine's reach; any use is an engine error)", true)
+		}
+	}
+	return true
+}
+
+// poisonVal marks a package-level variable whose initialiser could not be run.
+type poisonVal struct{ name string }
+
+// tryInitInstr executes one instruction of a package initializer; if the engine
+// cannot execute it (reflection, assembly, unsupported library code) the
+// instruction is skipped and its result poisoned instead of failing the path:
+// only an actual use of a poisoned value is an error.
+func (fr *frame) tryInitInstr(instr ssa.Instruction) (cont continuation, ok bool) {
+	defer func() {
+		if r := recover(); r != nil {
+			switch r.(type) {
+			case engineError, runtime.Error, string:
+				if _, isCtl := instr.(*ssa.If); isCtl {
+					panic(r)
+				}
+				fr.i.depth = frameDepth(fr)
+				fr.i.curFrame = fr
+				fr.skipInInit(instr, true)
+				ok = false
+				return
+			}
+			panic(r)
+		}
+	}()
+	return visitInstr(fr, instr), true
 }
